@@ -1,6 +1,7 @@
 package rules
 
 import (
+	"reflect"
 	"fmt"
 	"go/token"
 	"go/types"
@@ -1249,4 +1250,180 @@ func (c *Ctx) CHKCAST(rule string) []report.Obligation {
 		out = append(out, bad(rule, TChecks+" :: typed attributes", "", "no check tests a looked-up attribute as a typed value: the rule sees nothing"))
 	}
 	return out
+}
+
+// KEYABS (C04): entries of a keyed list given in two spellings collapse when both spellings produce the same
+// key. The mount indexers are made by a factory that receives the default directory ("/run/secrets" for secrets,
+// "" - the root - for configs). A key built with path.Join(dir, name) loses the leading slash when dir is "":
+// the short spelling is then keyed `name`, the explicit absolute target `/name`, and both entries survive. Where
+// an indexer made by a factory joins the factory's directory argument with path.Join / filepath.Join, no row of
+// the table passes the empty string for it.
+func (c *Ctx) KEYABS(rule string) []report.Obligation {
+	var out []report.Obligation
+	uniq := c.table(rule, TUnique, &out)
+	if uniq == nil {
+		return out
+	}
+	n := 0
+	for _, r := range uniq.Rows {
+		if r.Fn == nil || r.Fn.Parent() == nil || len(r.Args) == 0 {
+			continue
+		}
+		factory := r.Fn.Parent()
+		for _, cs := range callSites(r.Fn, func(com *ssa.CallCommon) bool {
+			sn := staticName(com)
+			return sn == "path.Join" || sn == "path/filepath.Join"
+		}) {
+			sl, ok := cs.Common().Args[0].(*ssa.Slice)
+			if !ok {
+				continue
+			}
+			al, ok := sl.X.(*ssa.Alloc)
+			if !ok {
+				continue
+			}
+			for _, ar := range *al.Referrers() {
+				ia, isIA := ar.(*ssa.IndexAddr)
+				if !isIA {
+					continue
+				}
+				if k, _ := constInt(ia.Index); k != 0 {
+					continue
+				}
+				for _, rr := range *ia.Referrers() {
+					st, isSt := rr.(*ssa.Store)
+					if !isSt || st.Addr != ssa.Value(ia) {
+						continue
+					}
+					// the first element is the factory's parameter (captured)
+					v := st.Val
+					if ld, isLd := v.(*ssa.UnOp); isLd {
+						v = ld.X
+					}
+					fv, isFV := v.(*ssa.FreeVar)
+					if !isFV {
+						continue
+					}
+					for i, ffv := range r.Fn.FreeVars {
+						if ffv != fv {
+							continue
+						}
+						_ = i
+						for pi, pa := range factory.Params {
+							if pa.Name() == fv.Name() && pi < len(r.Args) {
+								n++
+								out = append(out, verdict(r.Args[pi] != "", rule, TUnique+" :: "+r.Pattern+" key joined to a non-empty directory", cs.Parent().Prog.Fset.Position(cs.Pos()).String(),
+									"the directory the key is joined to is "+fmt.Sprintf("%q", r.Args[pi]), "the key is built with Join(dir, name) and this row passes the empty string for dir: Join drops it, the short spelling is keyed `name` while an explicit absolute target is keyed `/name`, so the two spellings of one mount do not collapse"))
+							}
+						}
+					}
+				}
+			}
+		}
+	}
+	out = append(out, report.Obligation{Rule: rule, Key: "inventory", Status: report.Discharged, Why: fmt.Sprintf("%d keys joined to a factory argument", n)})
+	return out
+}
+
+// OMITDFLT (C09): a default that is not the zero value of its field, on a field rendered with omitempty, cannot
+// survive a round trip when the user wrote the zero value: the renderer drops `false` / `0`, and the reload puts
+// the default back. For every constant a defaults handler stores under a key (protocol: tcp, mode: ingress,
+// create_host_path: true, ...), the model field at that position is either not omitempty, or its zero value is not
+// something a user can mean (a string default: the empty string is no protocol), i.e. the field is a string.
+func (c *Ctx) OMITDFLT(rule string) []report.Obligation {
+	var out []report.Obligation
+	d := c.tab()
+	if d.err != nil {
+		return c.tabErr(rule)
+	}
+	dfl := c.table(rule, TDefaults, &out)
+	if dfl == nil {
+		return out
+	}
+	n := 0
+	for _, r := range dfl.Rows {
+		if r.Fn == nil {
+			continue
+		}
+		fns := []*ssa.Function{r.Fn}
+		for _, cs := range callSites(r.Fn, func(com *ssa.CallCommon) bool {
+			cal := com.StaticCallee()
+			return cal != nil && c.P.InModule(cal) && strings.HasPrefix(c.P.FuncID(cal), "transform.") && cal.Blocks != nil
+		}) {
+			fns = append(fns, cs.Common().StaticCallee())
+		}
+		for _, g := range fns {
+			for _, b := range g.Blocks {
+				for _, in := range b.Instrs {
+					mu, ok := in.(*ssa.MapUpdate)
+					if !ok {
+						continue
+					}
+					k, isK := prog.ConstString(mu.Key)
+					v := mu.Value
+					if mi, isMI := v.(*ssa.MakeInterface); isMI {
+						v = mi.X
+					}
+					cst, isC := v.(*ssa.Const)
+					if !isK || !isC || cst.Value == nil {
+						continue
+					}
+					// the model field at <pattern>.<key>
+					path := strings.ReplaceAll(r.Pattern, ".[]", ".*") + "." + k
+					var mn *tab.ModelNode
+					for _, mp := range d.model.Paths() {
+						if tab.MatchPattern(mp, path) || mp == path {
+							mn = d.model.Nodes[mp]
+							break
+						}
+					}
+					if mn == nil || mn.Owner == "" {
+						continue
+					}
+					n++
+					kind := goScalarKind(mn.Type)
+					omit := c.fieldOmitEmpty(mn.Owner)
+					good := !omit || kind == "string" || kind == ""
+					out = append(out, verdict(good, rule, TDefaults+" :: "+path+" default survives a round trip", c.P.InstrPos(mu),
+						fmt.Sprintf("field %s (%s, omitempty=%v) defaulted to %s", mn.Owner, kind, omit, cst.Value.ExactString()),
+						fmt.Sprintf("%s is a %s rendered with omitempty and defaulted to %s: an explicit zero value (false / 0) is dropped by the renderer and the reload puts the default back, so the reloaded project differs from the one rendered", mn.Owner, kind, cst.Value.ExactString())))
+				}
+			}
+		}
+	}
+	if n == 0 {
+		out = append(out, bad(rule, TDefaults+" :: constant defaults", "", "no constant default found: the rule sees nothing"))
+	}
+	return out
+}
+
+// fieldOmitEmpty: the yaml tag of the struct field "types.T.F" carries omitempty.
+func (c *Ctx) fieldOmitEmpty(owner string) bool {
+	parts := strings.Split(owner, ".")
+	if len(parts) != 3 {
+		return false
+	}
+	pk := c.P.PkgByRel[parts[0]]
+	if pk == nil {
+		return false
+	}
+	obj := pk.Types.Scope().Lookup(parts[1])
+	if obj == nil {
+		return false
+	}
+	st, ok := obj.Type().Underlying().(*types.Struct)
+	if !ok {
+		return false
+	}
+	for i := 0; i < st.NumFields(); i++ {
+		if st.Field(i).Name() == parts[2] {
+			tag := reflect.StructTag(st.Tag(i)).Get("yaml")
+			for _, o := range strings.Split(tag, ",")[1:] {
+				if o == "omitempty" {
+					return true
+				}
+			}
+		}
+	}
+	return false
 }
